@@ -1,116 +1,16 @@
-(* C07 second tier, PARTIAL: the validator accepts what the compiler emits, for every tree of an
-   EXPRESSION fragment, by induction over the tree.
-
-   LOCAL PORT, clearly labelled: `cexpr` below is a hand port of the expression arms of
-   Compiler::compile_expr (tera/src/parsing/compiler.rs 112-419) written for this file only —
-   constants, variables, attribute and subscript access (plain and optional), unary and binary
-   operators, `and` / `or` (JumpIfFalseOrPop / JumpIfTrueOrPop back-patched to the end of the
-   operator, 370-406), the ternary (PopJumpIfFalse / Jump back-patched, 243-254), filters,
-   tests and function calls without keyword arguments (BuildMap 0). It is NOT the shared
-   Model/Compile.v (another branch) and is not tied to the Rust code by a correspondence run;
-   statements, keyword arguments, literals with elements, comprehensions and component calls
-   are not covered: for those the guarantee is the validator run on every real chunk. *)
+(* C07 second tier: general facts about the validator's abstract states (reflexivity and
+   transitivity of astate_sub, refinement of a pushed slot to TAny, tables agreeing with a
+   segment, all_from from per-instruction facts) used by the assembly calculus of
+   Proofs/CompileFrag.v.  The hand port of compile_expr that lived here (and the theorem
+   C07_compile_always_checks_partial over it) is gone: the shared compiler port Model/Compile.v
+   now has every expression form it had, and more (Proofs/CompileAlwaysChecks.v). *)
 From TeraV Require Import Model.Value Model.Instr Model.VM Model.StackCheck.
 Local Open Scope nat_scope.
-
-Inductive binop :=
-| BMul | BDiv | BFloorDiv | BMod | BPlus | BMinus | BPower
-| BLt | BGt | BLe | BGe | BEq | BNe | BConcat | BIn.
-
-Definition instr_of_binop (b : binop) : instr :=
-  match b with
-  | BMul => Mul | BDiv => Div | BFloorDiv => FloorDiv | BMod => Mod | BPlus => Plus
-  | BMinus => Minus | BPower => Power | BLt => LessThan | BGt => GreaterThan
-  | BLe => LessThanOrEqual | BGe => GreaterThanOrEqual | BEq => Equal | BNe => NotEqual
-  | BConcat => StrConcat | BIn => InOp
-  end.
-
-Inductive expr :=
-| XConst (v : value)
-| XVar (n : str)
-| XAttr (e : expr) (a : str) (opt : bool)
-| XItem (e sub : expr) (opt : bool)
-| XUn (neg : bool) (e : expr)
-| XBin (op : binop) (l r : expr)
-| XAnd (l r : expr)
-| XOr (l r : expr)
-| XTernary (c t f : expr)
-| XFilter (e : expr) (name : str)
-| XTest (e : expr) (name : str)
-| XCall (name : str).
-
-(* number of instructions emitted *)
-Fixpoint clen (e : expr) : nat :=
-  match e with
-  | XConst _ | XVar _ => 1
-  | XAttr e _ _ | XUn _ e => clen e + 1
-  | XItem a b _ | XBin _ a b => clen a + clen b + 1
-  | XAnd l r | XOr l r => clen l + 1 + clen r
-  | XTernary c t f => clen c + 1 + clen t + 1 + clen f
-  | XFilter e _ | XTest e _ => clen e + 2
-  | XCall _ => 2
-  end.
-
-(* `p` is chunk.len() when compilation of the expression starts: jump targets are absolute *)
-Fixpoint cexpr (e : expr) (p : nat) : list instr :=
-  match e with
-  | XConst v => [LoadConst v]
-  | XVar n => [LoadName n]
-  | XAttr e a opt => cexpr e p ++ [if opt then LoadAttrOpt a else LoadAttr a]
-  | XItem e s opt =>
-      cexpr e p ++ cexpr s (p + clen e) ++ [if opt then BinarySubscriptOpt else BinarySubscript]
-  | XUn neg e => cexpr e p ++ [if neg then Negative else Not]
-  | XBin op l r => cexpr l p ++ cexpr r (p + clen l) ++ [instr_of_binop op]
-  | XAnd l r =>
-      cexpr l p ++ [JumpIfFalseOrPop (p + clen l + 1 + clen r)] ++ cexpr r (p + clen l + 1)
-  | XOr l r =>
-      cexpr l p ++ [JumpIfTrueOrPop (p + clen l + 1 + clen r)] ++ cexpr r (p + clen l + 1)
-  | XTernary c t f =>
-      cexpr c p ++ [PopJumpIfFalse (p + clen c + 1 + clen t + 1)] ++ cexpr t (p + clen c + 1)
-      ++ [Jump (p + clen c + 1 + clen t + 1 + clen f)] ++ cexpr f (p + clen c + 1 + clen t + 1)
-  | XFilter e n => cexpr e p ++ [BuildMap 0; ApplyFilter n]
-  | XTest e n => cexpr e p ++ [BuildMap 0; RunTest n]
-  | XCall n => [BuildMap 0; CallFunction n]
-  end.
-
-(* `{{ e }}` as a whole chunk *)
-Definition compile_print (e : expr) : list instr := cexpr e 0 ++ [WriteTop].
-
-Lemma cexpr_length e : forall p, length (cexpr e p) = clen e.
-Proof.
-  induction e; intros p; cbn [cexpr clen]; rewrite ?app_length; cbn [length];
-    rewrite ?IHe, ?IHe1, ?IHe2, ?IHe3; lia.
-Qed.
 
 Section Table.
   Variable lo : list (option nat).
   Variable ca : nat.
   Definition A (st : list aty) : astate := mkA st lo ca.
-
-  (* the abstract state before each emitted instruction, for a value stack `st` underneath *)
-  Fixpoint seg (e : expr) (st : list aty) : list astate :=
-    match e with
-    | XConst _ | XVar _ => [A st]
-    | XAttr e _ _ | XUn _ e => seg e st ++ [A (TAny :: st)]
-    | XItem a b _ | XBin _ a b => seg a st ++ seg b (TAny :: st) ++ [A (TAny :: TAny :: st)]
-    | XAnd l r | XOr l r => seg l st ++ [A (TAny :: st)] ++ seg r st
-    | XTernary c t f => seg c st ++ [A (TAny :: st)] ++ seg t st ++ [A (TAny :: st)] ++ seg f st
-    | XFilter e _ | XTest e _ => seg e st ++ [A (TAny :: st); A (TMap :: TAny :: st)]
-    | XCall _ => [A st; A (TMap :: st)]
-    end.
-
-  Lemma seg_length e : forall st, length (seg e st) = clen e.
-  Proof.
-    induction e; intros st; cbn [seg clen]; rewrite ?app_length; cbn [length];
-      rewrite ?IHe, ?IHe1, ?IHe2, ?IHe3; lia.
-  Qed.
-
-  Lemma seg_hd e : forall st, nth_error (seg e st) 0 = Some (A st).
-  Proof.
-    induction e; intros st; cbn [seg]; try reflexivity;
-      try (rewrite nth_error_app1; [auto|rewrite seg_length; destruct e; cbn; lia]);
-      try (rewrite nth_error_app1; [auto|rewrite seg_length; destruct e1; cbn; lia]).
-  Qed.
 
   Lemma all2_refl {X} (f : X -> X -> bool) : (forall x, f x x = true) -> forall l, all2 f l l = true.
   Proof. intros H. induction l as [|x l IH]; [reflexivity|]. cbn. rewrite H, IH. reflexivity. Qed.
@@ -177,177 +77,6 @@ Section Table.
     - right. split; [exact Hl|]. rewrite nth_error_app2 in H by exact Hl. exact H.
   Qed.
 
-  (* one straight-line instruction *)
-  Lemma one_ok T q i a a' b : nth_error T q = Some (Some a) -> astep i q a = Some [(S q, a')] ->
-    nth_error T (S q) = Some (Some b) -> astate_sub a' b = true -> instr_ok T q i = true.
-  Proof.
-    intros H1 H2 H3 H4. unfold instr_ok. rewrite H1, H2. cbn [forallb]. unfold edge_ok. cbn [fst snd].
-    rewrite H3, H4. reflexivity.
-  Qed.
-
-  Definition frag_ok (e : expr) (st : list aty) : Prop :=
-    forall p T b, agree T p (seg e st) ->
-      nth_error T (p + clen e) = Some (Some b) -> astate_sub (A (TAny :: st)) b = true ->
-      forall k i, nth_error (cexpr e p) k = Some i -> instr_ok T (p + k) i = true.
-
-  (* the entry right after a sub-fragment is the head of what follows *)
-  Ltac idx := repeat rewrite ?app_length, ?seg_length, ?cexpr_length in *; cbn [length] in *.
-
-  Lemma binop_step op q t1 t2 st :
-    astep (instr_of_binop op) q (A (t1 :: t2 :: st)) = Some [(S q, A (TAny :: st))].
-  Proof. destruct op; reflexivity. Qed.
-
-  (* e ; i  where i pops the value of e (and nothing else) and pushes one *)
-  Lemma frag_then_one e st i aout :
-    frag_ok e st ->
-    (forall q, astep i q (A (TAny :: st)) = Some [(S q, aout)]) ->
-    forall p T b, agree T p (seg e st ++ [A (TAny :: st)]) ->
-      nth_error T (p + (clen e + 1)) = Some (Some b) -> astate_sub aout b = true ->
-      forall k j, nth_error (cexpr e p ++ [i]) k = Some j -> instr_ok T (p + k) j = true.
-  Proof.
-    intros He Hi p T b Hag Hexit Hsub k j Hk.
-    destruct (agree_app _ _ _ _ Hag) as [Ha1 Ha2]. rewrite seg_length in Ha2.
-    pose proof (Ha2 0 _ eq_refl) as Hmid. rewrite Nat.add_0_r in Hmid.
-    destruct (nth_app_cases _ _ _ _ Hk) as [[Hl Hk1]|[Hl Hk2]].
-    - exact (He p T _ Ha1 Hmid (astate_sub_refl _) k j Hk1).
-    - rewrite cexpr_length in Hl, Hk2. destruct (k - clen e) as [|n] eqn:Ek; [|destruct n; discriminate].
-      injection Hk2 as <-. replace (p + k) with (p + clen e) by lia.
-      apply (one_ok T _ i _ _ b Hmid (Hi _)); [|exact Hsub].
-      replace (S (p + clen e)) with (p + (clen e + 1)) by lia. exact Hexit.
-  Qed.
-
-  Theorem cexpr_frag_ok : forall e st, frag_ok e st.
-  Proof.
-    induction e as [v|n|e IHe a opt|e1 IH1 e2 IH2 opt|neg e IHe|op e1 IH1 e2 IH2|e1 IH1 e2 IH2|e1 IH1 e2 IH2
-                    |e1 IH1 e2 IH2 e3 IH3|e IHe n|e IHe n|n]; intros st.
-    - (* const *) intros p T b Hag Hexit Hsub k i Hk. destruct k as [|[|k]]; try discriminate. injection Hk as <-.
-      rewrite Nat.add_0_r. pose proof (Hag 0 _ eq_refl) as H0. rewrite Nat.add_0_r in H0.
-      eapply one_ok; [exact H0|reflexivity| |].
-      + replace (S p) with (p + clen (XConst v)) by (cbn; lia). exact Hexit.
-      + exact (astate_sub_trans _ _ _ (sub_top_any _ _) Hsub).
-    - (* var *) intros p T b Hag Hexit Hsub k i Hk. destruct k as [|[|k]]; try discriminate. injection Hk as <-.
-      rewrite Nat.add_0_r. pose proof (Hag 0 _ eq_refl) as H0. rewrite Nat.add_0_r in H0.
-      eapply one_ok; [exact H0|reflexivity| |exact Hsub].
-      replace (S p) with (p + clen (XVar n)) by (cbn; lia). exact Hexit.
-    - (* attr *) intros p T b Hag Hexit Hsub. cbn [cexpr seg clen] in *.
-      apply (frag_then_one e st (if opt then LoadAttrOpt a else LoadAttr a) (A (TAny :: st)) (IHe st)) with (b := b); [destruct opt; reflexivity|exact Hag|exact Hexit|exact Hsub].
-    - (* item *) intros p T b Hag Hexit Hsub k i Hk. cbn [cexpr seg clen] in *.
-      destruct (agree_app _ _ _ _ Hag) as [Ha1 Ha23]. rewrite seg_length in Ha23.
-      pose proof (seg_hd e2 (TAny :: st)) as Hh2.
-      destruct (agree_app _ _ _ _ Ha23) as [Ha2 _].
-      pose proof (Ha2 0 _ Hh2) as Hmid. rewrite Nat.add_0_r in Hmid.
-      destruct (nth_app_cases _ _ _ _ Hk) as [[Hl Hk1]|[Hl Hk2]].
-      + exact (IH1 st p T _ Ha1 Hmid (astate_sub_refl _) k i Hk1).
-      + rewrite cexpr_length in Hl, Hk2.
-        replace (p + k) with ((p + clen e1) + (k - clen e1)) by lia.
-        apply (frag_then_one e2 (TAny :: st) (if opt then BinarySubscriptOpt else BinarySubscript) (A (TAny :: st)) (IH2 (TAny :: st))) with (b := b); [destruct opt; reflexivity|exact Ha23| |exact Hsub|exact Hk2].
-        replace (p + clen e1 + (clen e2 + 1)) with (p + (clen e1 + clen e2 + 1)) by lia. exact Hexit.
-    - (* unary *) intros p T b Hag Hexit Hsub. cbn [cexpr seg clen] in *.
-      apply (frag_then_one e st (if neg then Negative else Not) (A (TAny :: st)) (IHe st)) with (b := b); [destruct neg; reflexivity|exact Hag|exact Hexit|exact Hsub].
-    - (* binary *) intros p T b Hag Hexit Hsub k i Hk. cbn [cexpr seg clen] in *.
-      destruct (agree_app _ _ _ _ Hag) as [Ha1 Ha23]. rewrite seg_length in Ha23.
-      pose proof (seg_hd e2 (TAny :: st)) as Hh2.
-      destruct (agree_app _ _ _ _ Ha23) as [Ha2 _].
-      pose proof (Ha2 0 _ Hh2) as Hmid. rewrite Nat.add_0_r in Hmid.
-      destruct (nth_app_cases _ _ _ _ Hk) as [[Hl Hk1]|[Hl Hk2]].
-      + exact (IH1 st p T _ Ha1 Hmid (astate_sub_refl _) k i Hk1).
-      + rewrite cexpr_length in Hl, Hk2.
-        replace (p + k) with ((p + clen e1) + (k - clen e1)) by lia.
-        apply (frag_then_one e2 (TAny :: st) (instr_of_binop op) (A (TAny :: st)) (IH2 (TAny :: st))) with (b := b); [intros q; apply binop_step|exact Ha23| |exact Hsub|exact Hk2].
-        replace (p + clen e1 + (clen e2 + 1)) with (p + (clen e1 + clen e2 + 1)) by lia. exact Hexit.
-    - (* and *) intros p T b Hag Hexit Hsub k i Hk. cbn [cexpr seg clen] in *.
-      destruct (agree_app _ _ _ _ Hag) as [Ha1 Ha23]. rewrite seg_length in Ha23.
-      destruct (agree_app _ _ _ _ Ha23) as [HaJ Ha2]. cbn [length] in Ha2.
-      pose proof (HaJ 0 _ eq_refl) as HJ. rewrite Nat.add_0_r in HJ.
-      pose proof (Ha2 0 _ (seg_hd e2 st)) as Hr. rewrite Nat.add_0_r in Hr.
-      destruct (nth_app_cases _ _ _ _ Hk) as [[Hl Hk1]|[Hl Hk2]].
-      + exact (IH1 st p T _ Ha1 HJ (astate_sub_refl _) k i Hk1).
-      + rewrite cexpr_length in Hl, Hk2. destruct (k - clen e1) as [|m] eqn:Ek.
-        * injection Hk2 as <-. replace (p + k) with (p + clen e1) by lia.
-          unfold instr_ok. rewrite HJ. cbn [astep a_stack a_loops a_caps A forallb]. unfold edge_ok. cbn [fst snd].
-          replace (S (p + clen e1)) with (p + clen e1 + 1) by lia. rewrite Hr, astate_sub_refl.
-          replace (p + clen e1 + 1 + clen e2) with (p + (clen e1 + 1 + clen e2)) by lia. rewrite Hexit, Hsub. reflexivity.
-        * cbn [nth_error] in Hk2. replace (p + k) with ((p + clen e1 + 1) + m) by lia.
-          apply (IH2 st (p + clen e1 + 1) T b Ha2); [|exact Hsub|exact Hk2].
-          replace (p + clen e1 + 1 + clen e2) with (p + (clen e1 + 1 + clen e2)) by lia. exact Hexit.
-    - (* or *) intros p T b Hag Hexit Hsub k i Hk. cbn [cexpr seg clen] in *.
-      destruct (agree_app _ _ _ _ Hag) as [Ha1 Ha23]. rewrite seg_length in Ha23.
-      destruct (agree_app _ _ _ _ Ha23) as [HaJ Ha2]. cbn [length] in Ha2.
-      pose proof (HaJ 0 _ eq_refl) as HJ. rewrite Nat.add_0_r in HJ.
-      pose proof (Ha2 0 _ (seg_hd e2 st)) as Hr. rewrite Nat.add_0_r in Hr.
-      destruct (nth_app_cases _ _ _ _ Hk) as [[Hl Hk1]|[Hl Hk2]].
-      + exact (IH1 st p T _ Ha1 HJ (astate_sub_refl _) k i Hk1).
-      + rewrite cexpr_length in Hl, Hk2. destruct (k - clen e1) as [|m] eqn:Ek.
-        * injection Hk2 as <-. replace (p + k) with (p + clen e1) by lia.
-          unfold instr_ok. rewrite HJ. cbn [astep a_stack a_loops a_caps A forallb]. unfold edge_ok. cbn [fst snd].
-          replace (S (p + clen e1)) with (p + clen e1 + 1) by lia. rewrite Hr, astate_sub_refl.
-          replace (p + clen e1 + 1 + clen e2) with (p + (clen e1 + 1 + clen e2)) by lia. rewrite Hexit, Hsub. reflexivity.
-        * cbn [nth_error] in Hk2. replace (p + k) with ((p + clen e1 + 1) + m) by lia.
-          apply (IH2 st (p + clen e1 + 1) T b Ha2); [|exact Hsub|exact Hk2].
-          replace (p + clen e1 + 1 + clen e2) with (p + (clen e1 + 1 + clen e2)) by lia. exact Hexit.
-    - (* ternary *) intros p T b Hag Hexit Hsub k i Hk. cbn [cexpr seg clen] in *.
-      destruct (agree_app _ _ _ _ Hag) as [Hac Ha']. rewrite seg_length in Ha'.
-      destruct (agree_app _ _ _ _ Ha') as [HaP Ha'']. cbn [length] in Ha''.
-      destruct (agree_app _ _ _ _ Ha'') as [Hat Ha''']. rewrite seg_length in Ha'''.
-      destruct (agree_app _ _ _ _ Ha''') as [HaJ Haf]. cbn [length] in Haf.
-      pose proof (HaP 0 _ eq_refl) as HP. rewrite Nat.add_0_r in HP.
-      pose proof (Hat 0 _ (seg_hd e2 st)) as Ht0. rewrite Nat.add_0_r in Ht0.
-      pose proof (HaJ 0 _ eq_refl) as HJ. rewrite Nat.add_0_r in HJ.
-      pose proof (Haf 0 _ (seg_hd e3 st)) as Hf0. rewrite Nat.add_0_r in Hf0.
-      destruct (nth_app_cases _ _ _ _ Hk) as [[Hl Hk1]|[Hl Hk2]].
-      + exact (IH1 st p T _ Hac HP (astate_sub_refl _) k i Hk1).
-      + rewrite cexpr_length in Hl, Hk2. destruct (k - clen e1) as [|m] eqn:Ek.
-        * (* PopJumpIfFalse *) injection Hk2 as <-. replace (p + k) with (p + clen e1) by lia.
-          unfold instr_ok. rewrite HP. cbn [astep a_stack a_loops a_caps A forallb]. unfold edge_ok. cbn [fst snd].
-          replace (S (p + clen e1)) with (p + clen e1 + 1) by lia. fold (A st). rewrite Ht0, astate_sub_refl.
-          replace (p + clen e1 + 1 + clen e2 + 1) with (p + clen e1 + 1 + clen e2 + 1) by lia.
-          rewrite Hf0, astate_sub_refl. reflexivity.
-        * cbn [nth_error] in Hk2.
-          destruct (nth_app_cases _ _ _ _ Hk2) as [[Hl2 Hk3]|[Hl2 Hk3]].
-          -- replace (p + k) with ((p + clen e1 + 1) + m) by lia.
-             exact (IH2 st (p + clen e1 + 1) T _ Hat HJ (astate_sub_refl _) m i Hk3).
-          -- rewrite cexpr_length in Hl2, Hk3. destruct (m - clen e2) as [|m'] eqn:Em.
-             ++ (* Jump *) injection Hk3 as <-. replace (p + k) with (p + clen e1 + 1 + clen e2) by lia.
-                unfold instr_ok. rewrite HJ. cbn [astep forallb]. unfold edge_ok. cbn [fst snd].
-                replace (p + clen e1 + 1 + clen e2 + 1 + clen e3) with (p + (clen e1 + 1 + clen e2 + 1 + clen e3)) by lia.
-                rewrite Hexit, Hsub. reflexivity.
-             ++ cbn [nth_error] in Hk3. replace (p + k) with ((p + clen e1 + 1 + clen e2 + 1) + m') by lia.
-                apply (IH3 st (p + clen e1 + 1 + clen e2 + 1) T b Haf); [|exact Hsub|exact Hk3].
-                replace (p + clen e1 + 1 + clen e2 + 1 + clen e3) with (p + (clen e1 + 1 + clen e2 + 1 + clen e3)) by lia. exact Hexit.
-    - (* filter *) intros p T b Hag Hexit Hsub k i Hk. cbn [cexpr seg clen] in *.
-      destruct (agree_app _ _ _ _ Hag) as [Ha1 Ha2]. rewrite seg_length in Ha2.
-      pose proof (Ha2 0 _ eq_refl) as H0. rewrite Nat.add_0_r in H0.
-      pose proof (Ha2 1 _ eq_refl) as H1.
-      destruct (nth_app_cases _ _ _ _ Hk) as [[Hl Hk1]|[Hl Hk2]].
-      + exact (IHe st p T _ Ha1 H0 (astate_sub_refl _) k i Hk1).
-      + rewrite cexpr_length in Hl, Hk2. destruct (k - clen e) as [|[|m]] eqn:Ek; try (destruct m; discriminate).
-        * injection Hk2 as <-. replace (p + k) with (p + clen e) by lia.
-          eapply one_ok; [exact H0|reflexivity|replace (S (p + clen e)) with (p + clen e + 1) by lia; exact H1|apply astate_sub_refl].
-        * injection Hk2 as <-. replace (p + k) with (p + clen e + 1) by lia.
-          eapply one_ok; [exact H1|reflexivity| |exact Hsub].
-          replace (S (p + clen e + 1)) with (p + (clen e + 2)) by lia. exact Hexit.
-    - (* test *) intros p T b Hag Hexit Hsub k i Hk. cbn [cexpr seg clen] in *.
-      destruct (agree_app _ _ _ _ Hag) as [Ha1 Ha2]. rewrite seg_length in Ha2.
-      pose proof (Ha2 0 _ eq_refl) as H0. rewrite Nat.add_0_r in H0.
-      pose proof (Ha2 1 _ eq_refl) as H1.
-      destruct (nth_app_cases _ _ _ _ Hk) as [[Hl Hk1]|[Hl Hk2]].
-      + exact (IHe st p T _ Ha1 H0 (astate_sub_refl _) k i Hk1).
-      + rewrite cexpr_length in Hl, Hk2. destruct (k - clen e) as [|[|m]] eqn:Ek; try (destruct m; discriminate).
-        * injection Hk2 as <-. replace (p + k) with (p + clen e) by lia.
-          eapply one_ok; [exact H0|reflexivity|replace (S (p + clen e)) with (p + clen e + 1) by lia; exact H1|apply astate_sub_refl].
-        * injection Hk2 as <-. replace (p + k) with (p + clen e + 1) by lia.
-          eapply one_ok; [exact H1|reflexivity| |exact Hsub].
-          replace (S (p + clen e + 1)) with (p + (clen e + 2)) by lia. exact Hexit.
-    - (* call *) intros p T b Hag Hexit Hsub k i Hk. cbn [cexpr seg clen] in *.
-      pose proof (Hag 0 _ eq_refl) as H0. rewrite Nat.add_0_r in H0.
-      pose proof (Hag 1 _ eq_refl) as H1.
-      destruct k as [|[|k]]; try (destruct k; discriminate).
-      + injection Hk as <-. rewrite Nat.add_0_r.
-        eapply one_ok; [exact H0|reflexivity|replace (S p) with (p + 1) by lia; exact H1|apply astate_sub_refl].
-      + injection Hk as <-.
-        eapply one_ok; [exact H1|reflexivity| |exact Hsub].
-        replace (S (p + 1)) with (p + 2) by lia. exact Hexit.
-  Qed.
 End Table.
 
 Lemma all_from_intro tbl : forall c ip0,
@@ -356,37 +85,4 @@ Proof.
   induction c as [|x c IH]; intros ip0 H; [reflexivity|]. cbn [all_from].
   rewrite <- (Nat.add_0_r ip0) at 1. rewrite (H 0 x eq_refl). cbn [andb]. apply IH.
   intros k i Hk. replace (S ip0 + k) with (ip0 + S k) by lia. exact (H (S k) i Hk).
-Qed.
-
-(* the table for `{{ e }}` *)
-Definition print_table (e : expr) : table :=
-  map Some (seg [] 0 e [] ++ [mkA [TAny] [] 0; a_empty]).
-
-(* compile_always_checks, expression fragment: for EVERY tree, a table exists that check_table
-   accepts for the compiled `{{ e }}` chunk — which is all the soundness theorem
-   (C07_table_invariant) needs *)
-Theorem compile_print_checks : forall e,
-  check_table (compile_print e) a_empty (print_table e) = true.
-Proof.
-  intros e. unfold check_table, compile_print, print_table.
-  assert (Hlen : length (seg [] 0 e []) = clen e) by apply seg_length.
-  assert (Hget : forall k a, nth_error (seg [] 0 e [] ++ [mkA [TAny] [] 0; a_empty]) k = Some a ->
-                 nth_error (map Some (seg [] 0 e [] ++ [mkA [TAny] [] 0; a_empty])) k = Some (Some a)).
-  { intros k a H. rewrite nth_error_map, H. reflexivity. }
-  assert (Hexit1 : nth_error (map Some (seg [] 0 e [] ++ [mkA [TAny] [] 0; a_empty])) (clen e) = Some (Some (mkA [TAny] [] 0))).
-  { apply Hget. rewrite nth_error_app2 by lia. rewrite Hlen, Nat.sub_diag. reflexivity. }
-  assert (Hexit2 : nth_error (map Some (seg [] 0 e [] ++ [mkA [TAny] [] 0; a_empty])) (S (clen e)) = Some (Some a_empty)).
-  { apply Hget. rewrite nth_error_app2 by lia. rewrite Hlen. replace (S (clen e) - clen e) with 1 by lia. reflexivity. }
-  rewrite map_length, !app_length, cexpr_length, Hlen. cbn [length].
-  replace (clen e + 2) with (S (clen e + 1)) by lia. rewrite Nat.eqb_refl. cbn [andb].
-  rewrite (Hget 0 (mkA [] [] 0)) by (rewrite nth_error_app1 by (rewrite Hlen; destruct e; cbn; lia); apply (seg_hd [] 0 e [])).
-  change (astate_sub a_empty (mkA [] [] 0)) with (astate_sub a_empty a_empty). rewrite astate_sub_refl. cbn [andb].
-  replace (clen e + 1) with (S (clen e)) by lia. rewrite Hexit2, astate_sub_refl, andb_true_r.
-  apply all_from_intro. intros k i Hk. cbn [Nat.add].
-  destruct (nth_app_cases _ _ _ _ Hk) as [[Hl Hk1]|[Hl Hk2]].
-  - apply (cexpr_frag_ok [] 0 e [] 0 _ (mkA [TAny] [] 0)); [|exact Hexit1|apply astate_sub_refl|exact Hk1].
-    intros j a Hj. cbn [Nat.add]. apply Hget. rewrite nth_error_app1; [exact Hj|]. apply nth_error_Some. congruence.
-  - rewrite cexpr_length in Hl, Hk2. destruct (k - clen e) as [|m] eqn:Ek; [|destruct m; discriminate].
-    injection Hk2 as <-. replace k with (clen e) by lia.
-    eapply one_ok; [exact Hexit1|reflexivity|exact Hexit2|apply astate_sub_refl].
 Qed.
